@@ -7,8 +7,11 @@ spec -> code : TLC generates, for every filter of the bounded grammar, the closu
                (find_jobs / parse_filter_arg + _find_job_ids / the real `signac find` main): same id set as the
                canonical spelling, type-exact parse result.  TLC enumerates groupby cases (corpus, cursor filter, key,
                default) with the expected partition (GroupBy) and the result of the conformant model; each is executed.
-code -> spec : cursor observations (len, two iterations, indexing, slicing, membership) and groupby results of seeded
-               random corpora / keys are recorded and judged by TLC (CursorOK; Disjoint / Covers / LabelIsOwnValue).
+               Cursors: TLC exports the operation scripts (all 24 orders of contains / len / iter / item); they are applied to
+               fresh cursors made from non-canonical spellings, every step recorded and judged by TLC against CursorView(S);
+               for EVERY mapping / string spelling membership is asked first on the fresh cursor for every job.
+code -> spec : groupby results of seeded random corpora / keys are recorded and judged by TLC (Disjoint / Covers /
+               LabelIsOwnValue).
 """
 import collections
 import contextlib
@@ -79,6 +82,15 @@ def universe_corpus(rnd, n):
         x = rnd.choice(_VDX)
         if x is not Q.ABS:
             doc["x"] = x
+        # keys whose names merely begin with a namespace word (Spelling.tla PrefixLikeFilters), in a heterogeneous schema
+        for key in ("speed", "spx", "docking", "doc_x", "sp"):
+            if rnd.random() < 0.45:
+                sp[key] = rnd.choice([1, 1, 2, None, "ab"])
+        if rnd.random() < 0.45:
+            sp["species"] = rnd.choice([{"name": 1}, {"name": None}, {"name": 2}, {}])
+        for key in ("spin", "docs", "doc"):
+            if rnd.random() < 0.45:
+                doc[key] = rnd.choice([1, 1, 2, None])
         k = json.dumps(sp, sort_keys=True)
         if k not in seen:
             seen.add(k)
@@ -98,19 +110,42 @@ def _ids(sb, fn):
     return sb.mask(ids)
 
 
-def run_spelling(sb, sp):
-    """id set (mask) selected by one spelling, through the front end the spelling belongs to"""
+def run_spelling(sb, sp, first=None):
+    """id set (mask) selected by one spelling, through the front end the spelling belongs to.
+    For the spellings that make a cursor (mapping, string) membership is asked FIRST, on the fresh cursor, for every job
+    of the corpus and one job outside the project; the answers are stored in first["mask"] / first["foreign"]."""
     from signac.filterparse import parse_filter_arg
     p = sb.project
-    if sp["form"] == "py":
-        flt = Q.render_node(sp["node"])
-        return _ids(sb, lambda: [j.id for j in p.find_jobs(flt)])
-    if sp["form"] == "str":
-        text = " ".join(Q.render_tokens(sp["toks"], compact=True))
-        return _ids(sb, lambda: [j.id for j in p.find_jobs(text)])
+    if sp["form"] in ("py", "str"):
+        flt = Q.render_node(sp["node"]) if sp["form"] == "py" else " ".join(Q.render_tokens(sp["toks"], compact=True))
+
+        def go():
+            cur = p.find_jobs(flt)
+            if first is not None:
+                first["mask"] = sum(1 << i for i, h in enumerate(handles(sb)) if h in cur)
+                first["foreign"] = foreign(sb) in cur
+            return [j.id for j in cur]
+        return _ids(sb, go)
     toks = [json.dumps(Q.render_node(sp["node"]))] if sp["form"] == "json1" else Q.render_tokens(sp["toks"])
     with contextlib.redirect_stderr(io.StringIO()):
         return _ids(sb, lambda: p._find_job_ids(parse_filter_arg(toks) or None))   # the body of `signac find`
+
+
+def handles(sb):
+    """one job handle per corpus position, opened by state point (as a user holding a job would have it)"""
+    if not hasattr(sb, "_handles"):
+        sb._handles = [sb.project.open_job(sp) for sp, _ in sb.jobs]
+        sb._foreign = sb.project.open_job({"never": "initialised"})
+    return sb._handles
+
+
+def foreign(sb):
+    handles(sb)
+    return sb._foreign
+
+
+def spelled_filter(sp):
+    return Q.render_node(sp["node"]) if sp["form"] == "py" else " ".join(Q.render_tokens(sp["toks"], compact=True))
 
 
 def parse_of(sp):
@@ -201,7 +236,7 @@ def _spell_worker(item):
     jobs = universe_corpus(rnd, n)
     root = os.path.join(_G["base"], "s%d" % idx)
     sb = Q.Sandbox(root, jobs)
-    res = {"n": 0, "calls": 0, "ill": 0, "bad": [], "keys": set(), "jobs": jobs, "cursor": [], "main": 0}
+    res = {"n": 0, "calls": 0, "ill": 0, "bad": [], "keys": set(), "jobs": jobs, "cursor": [], "main": 0, "first": 0}
     raises = {}
 
     def atom_raises(g):
@@ -223,12 +258,26 @@ def _spell_worker(item):
         base = _ids(sb, lambda: [j.id for j in sb.project.find_jobs(canon)])
         res["n"] += 1
         shape = Q.shape_of(f)
+        nullish = "(null)" in shape or "$exists" in shape
         for si, sp in enumerate(line["spellings"]):
-            got = run_spelling(sb, sp)
+            first = {}
+            got = run_spelling(sb, sp, first)
             res["calls"] += 1
             res["keys"].add(_tok_shape(sp) + "|" + shape)
             if got != base:
                 res["bad"].append((li, si, base, got, "ids"))
+            if sp["form"] in ("py", "str"):
+                res["first"] += 1
+                # membership asked first on the fresh cursor must describe the same id set (compared here; every
+                # disagreement is re-recorded as a script and judged by TLC)
+                suspicious = "mask" in first and (first["mask"] != base or first["foreign"])
+                if suspicious or (nullish and idx < _G["nullish_corpora"]):
+                    info = {"corpus": jobs, "filter": spelled_filter(sp), "canonical": canon}
+                    scripts = _G["scripts"]
+                    mfirst = next(x for x in scripts if x[0] == "contains")
+                    res["cursor"].append(observe_cursor(sb, spelled_filter(sp), base, mfirst, rnd, dict(info, why="membership-first")))
+                    if not suspicious:
+                        res["cursor"].append(observe_cursor(sb, spelled_filter(sp), base, scripts[(li + si + idx) % len(scripts)], rnd, info))
         # the real command-line entry point on a few token spellings per corpus
         if (li + idx) % _G["main_every"] == 0:
             for si, sp in enumerate(line["spellings"]):
@@ -254,65 +303,84 @@ def _spell_worker(item):
                     got = out if isinstance(out, str) else sb.mask(out)
                     if got != base:
                         res["bad"].append((li, si, base, got, "main"))
-        # cursor observations on one non-canonical spelling
+        # a full operation script on one non-canonical cursor spelling; the scripts rotate so that all 24 orders are used
         if (li + 3 * idx) % _G["cursor_every"] == 0:
-            pys = [sp for sp in line["spellings"] if sp["form"] == "py"]
+            pys = [sp for sp in line["spellings"] if sp["form"] in ("py", "str")]
             sp = pys[(li + idx) % len(pys)]
-            res["cursor"].append(observe_cursor(sb, Q.render_node(sp["node"]), base, rnd, {"corpus": jobs, "filter": Q.render_node(sp["node"])}))
+            script = _G["scripts"][(li // _G["cursor_every"] + 5 * idx) % len(_G["scripts"])]
+            res["cursor"].append(observe_cursor(sb, spelled_filter(sp), base, script, rnd, {"corpus": jobs, "filter": spelled_filter(sp), "canonical": canon}))
     shutil.rmtree(root, ignore_errors=True)
     return res
 
 
 # ---- cursor observations ------------------------------------------------------------------------------------
-def observe_cursor(sb, flt, base_mask, rnd, info):
-    """record what one JobsCursor shows; S is the id set selected by the canonical spelling (another cursor)"""
+def observe_cursor(sb, flt, base_mask, script, rnd, info):
+    """apply the operation blocks of `script` (from TLC: an order of contains / len / iter / item), then slices, to ONE
+    fresh cursor and record every step; S is the id set selected by the canonical spelling (through another cursor)"""
+    rec = {"S": Q.mask_to_list(base_mask), "steps": [], "script": list(script), "err": "", "_info": info}
     try:
-        return _observe_cursor(sb, flt, base_mask, rnd, info)
+        _observe_cursor(sb, flt, script, rnd, rec["steps"])
     except Exception as e:  # noqa: BLE001 - an exception out of a cursor operation is an observation, not a harness failure
-        return {"S": Q.mask_to_list(base_mask), "len": -1, "iter": [], "iter2": [], "items": [], "slices": [], "contains": [],
-                "err": type(e).__name__, "_info": info}
-
-
-def _observe_cursor(sb, flt, base_mask, rnd, info):
-    p = sb.project
-    n = len(sb.ids)
-    cur = p.find_jobs(flt)
-    rec = {"S": Q.mask_to_list(base_mask), "len": len(cur), "err": "", "_info": info}
-    pos = lambda job: sb.pos[job.id] + 1 if job.id in sb.pos else -1
-    rec["iter"] = [pos(j) for j in cur]
-    rec["iter2"] = [pos(j) for j in cur]
-    k = len(rec["iter"])
-    items = []
-    for i in sorted({0, -1, k - 1, k, -k, -k - 1, rnd.randrange(-2, k + 2)}):
-        try:
-            items.append([i, pos(cur[i])])
-        except IndexError:
-            items.append([i, 0])
-    rec["items"] = items
-    slices = []
-    for lo, hi, st in [(0, k, 1), (1, k + 3, 1), (-2, k, 1), (0, k, 2), (rnd.randrange(-3, k + 1), rnd.randrange(-3, k + 3), rnd.choice([1, 1, 2, 3]))]:
-        slices.append([lo, hi, st, [pos(j) for j in cur[lo:hi:st]]])
-    rec["slices"] = slices
-    contains = [[i + 1, p.open_job(id=jid) in cur] for i, jid in enumerate(sb.ids)]
-    contains.append([n + 7, p.open_job({"never": "initialised"}) in cur])   # not a job of the project: expected False
-    fresh = p.find_jobs(flt)
-    contains += [[i + 1, p.open_job(sp) in fresh] for i, (sp, _) in enumerate(sb.jobs[:2])]   # membership before any other use
-    rec["contains"] = contains
+        rec["err"] = type(e).__name__
     return rec
 
 
-def judge_cursors(ctx, recs, qflags, gflags, name):
-    fin, fout = os.path.join(ctx.work, name + "_in.ndjson"), os.path.join(ctx.work, name + "_out.ndjson")
-    with open(fin, "w") as fh:
-        for r in recs:
-            fh.write(json.dumps({k: v for k, v in r.items() if k not in ("_info", "err")}) + "\n")
-    cfgt = tlc.cfg(consts("cfile", qflags, gflags, NGCORP=1), init="GInitIdle", next="GNext", invariants=["SliceLaws"], postcondition="CursorJudge")
-    r = tlc.run("query/GroupBy.tla", cfg_text=cfgt, workdir=ctx.work, env={"CURSOR_IN": fin, "CURSOR_OUT": fout}, coverage=False, allow_violation=False)
-    ctx.add_tlc("GroupBy.tla CursorView: %d recorded cursor observations judged (%s)" % (len(recs), name), r)
-    out = [json.loads(l) for l in open(fout)]
-    if len(out) != len(recs):
-        raise core.MachineryError("TLC judged %d of %d cursor records" % (len(out), len(recs)))
+def _observe_cursor(sb, flt, script, rnd, steps):
+    p = sb.project
+    n = len(sb.ids)
+    cur = p.find_jobs(flt)            # fresh: nothing has been asked of it yet
+    pos = lambda job: sb.pos[job.id] + 1 if job.id in sb.pos else -1
+    for block in list(script) + ["slice", "iter", "contains"]:
+        if block == "len":
+            steps.append({"op": "len", "a": [], "r": [len(cur)]})
+        elif block == "iter":
+            steps.append({"op": "iter", "a": [], "r": [pos(j) for j in cur]})
+        elif block == "contains":
+            for i, h in enumerate(handles(sb)):
+                steps.append({"op": "contains", "a": [i + 1], "r": [int(h in cur)]})
+            steps.append({"op": "contains", "a": [n + 7], "r": [int(foreign(sb) in cur)]})    # not a job of the project
+        elif block == "item":
+            for i in sorted({0, -1, n - 1, n, -n, -n - 1, 1, rnd.randrange(-2, n + 2)}):
+                try:
+                    steps.append({"op": "item", "a": [i], "r": [pos(cur[i])]})
+                except IndexError:
+                    steps.append({"op": "item", "a": [i], "r": [0]})
+        elif block == "slice":
+            for lo, hi, st in [(0, n, 1), (1, n + 3, 1), (-2, n, 1), (0, n, 2), (rnd.randrange(-3, n + 1), rnd.randrange(-3, n + 3), rnd.choice([1, 1, 2, 3]))]:
+                steps.append({"op": "slice", "a": [lo, hi, st], "r": [pos(j) for j in cur[lo:hi:st]]})
+
+
+CURSOR_FIELDS = ("len", "iter", "items", "slices", "contains")
+
+
+def judge_cursors(ctx, recs, qflags, gflags, name, chunk=6000):
+    out = []
+    for c0 in range(0, len(recs), chunk):
+        part = recs[c0:c0 + chunk]
+        fin, fout = os.path.join(ctx.work, "%s_%d_in.ndjson" % (name, c0)), os.path.join(ctx.work, "%s_%d_out.ndjson" % (name, c0))
+        with open(fin, "w") as fh:
+            for r in part:
+                fh.write(json.dumps({"S": r["S"], "steps": r["steps"]}) + "\n")
+        cfgt = tlc.cfg(consts("cfile", qflags, gflags, NGCORP=1), init="GInitIdle", next="GNext", invariants=["SliceLaws"], postcondition="CursorJudge")
+        r = tlc.run("query/GroupBy.tla", cfg_text=cfgt, workdir=ctx.work, env={"CURSOR_IN": fin, "CURSOR_OUT": fout}, coverage=False, allow_violation=False)
+        ctx.add_tlc("GroupBy.tla CursorView: %d recorded cursor scripts judged step by step (%s)" % (len(part), name), r)
+        res = [json.loads(l) for l in open(fout)]
+        if len(res) != len(part):
+            raise core.MachineryError("TLC judged %d of %d cursor records" % (len(res), len(part)))
+        out += res
     return out
+
+
+def cursor_scripts(ctx, qflags, gflags):
+    """the operation orders to run, generated by TLC (GroupBy.tla Scripts)"""
+    fout = os.path.join(ctx.work, "scripts.ndjson")
+    cfgt = tlc.cfg(consts("cfile0", qflags, gflags, NGCORP=1), init="GInitIdle", next="GNext", invariants=["SliceLaws"], postcondition="ScriptExport")
+    r = tlc.run("query/GroupBy.tla", cfg_text=cfgt, workdir=ctx.work, env={"CURSOR_SCRIPTS": fout}, coverage=False, allow_violation=False)
+    ctx.add_tlc("GroupBy.tla CursorView: operation scripts (all orders of contains / len / iter / item) and slice / index laws", r)
+    scripts = [json.loads(l) for l in open(fout)]
+    if len(scripts) != 24:
+        raise core.MachineryError("expected 24 cursor scripts, TLC exported %d" % len(scripts))
+    return scripts
 
 
 # ---- groupby ----------------------------------------------------------------------------------------------
@@ -507,7 +575,7 @@ def run(ctx):
                         "TLC and its Json module; os.listdir order not controlled"]
     ctx.cov["rule"] = ("spellings: case = (filter, spelling descriptor) from Spellings(f) for every atom of the bounded grammar plus a seeded sample of compound "
                        "filters, each executed on seeded corpora over the same keys; distinct = (front end + token shape, operator/argument-type structure of the filter). "
-                       "cursor: one record per (corpus, filter) sample. groupby: case = (corpus, cursor filter, key, default) enumerated by TLC over all keys "
+                       "cursor: one script record per (corpus, filter, spelling, operation order) sample - all 24 orders; membership-first for every cursor spelling; all spellings of null / $exists filters. groupby: case = (corpus, cursor filter, key, default) enumerated by TLC over all keys "
                        "(top-level, nested, sp./doc. prefixed, tuples, None, callables) x defaults; plus seeded random records judged by TLC; labels restricted to sortable ones")
     qflags = c06.probe_flags(ctx)
     gflags = probe_flags(ctx)
@@ -556,14 +624,16 @@ def run(ctx):
 
     # 1b. every spelling on real projects
     ncorp = 6 if quick else 40
-    _G.update(base=ctx.mkdtemp("spell"), spell_lines=lines, main_every=40 if quick else 25, cursor_every=5 if quick else 4, alt_main_corpora=1 if quick else 3)
+    scripts = cursor_scripts(ctx, qflags, gflags)
+    _G.update(base=ctx.mkdtemp("spell"), spell_lines=lines, main_every=40 if quick else 25, cursor_every=5 if quick else 4, alt_main_corpora=1 if quick else 3,
+              scripts=scripts, nullish_corpora=1 if quick else 4)
     items = [(i, rnd.randrange(2**40), rnd.choice([3, 4, 5, 6])) for i in range(ncorp)]
     results = core.pmap(_spell_worker, items, procs=procs, chunks=1)
     cursor_recs = []
     by_key = {}
-    ncalls = ncases = nmain = 0
+    ncalls = ncases = nmain = nfirst = 0
     for res in results:
-        ncalls += res["calls"]; ncases += res["n"]; nmain += res["main"]
+        ncalls += res["calls"]; ncases += res["n"]; nmain += res["main"]; nfirst += res["first"]
         for k in res["keys"]:
             ctx.count(k, n=0)
         cursor_recs += res["cursor"]
@@ -590,29 +660,42 @@ def run(ctx):
     # ---- 2. cursor views, judged by TLC -----------------------------------------------------------------------------
     cv = judge_cursors(ctx, cursor_recs, qflags, gflags, "cursor")
     seen = set()
+    used_scripts = set()
     for rec, v in zip(cursor_recs, cv):
+        used_scripts.add(tuple(rec["script"]))
+        info = rec["_info"]
         if rec["err"]:
             if "raises" not in seen:
                 seen.add("raises")
-                ctx.violation("cursor:raises-" + rec["err"], "find_jobs(%s) on %r: a cursor operation raises %s although the canonical spelling selects %s" % (
-                    json.dumps(rec["_info"]["filter"]), rec["_info"]["corpus"], rec["err"], rec["S"]), dict(rec["_info"], check="cursor", field="raises", S=rec["S"]))
+                ctx.violation("cursor:raises-" + rec["err"], "find_jobs(%r) on %r: a cursor operation raises %s although the canonical spelling selects %s" % (
+                    info["filter"], info["corpus"], rec["err"], rec["S"]), dict(info, check="cursor", script=rec["script"], S=rec["S"]))
             continue
-        for field in ("len", "iter", "again", "items", "slices", "contains"):
-            if not v[field] and field not in seen:
-                seen.add(field)
-                ctx.violation("cursor:%s" % field, "find_jobs(%s) on %r: the cursor's %s does not describe the id set %s (len=%s iter=%s items=%s slices=%s contains=%s)" % (
-                    json.dumps(rec["_info"]["filter"]), rec["_info"]["corpus"], field, rec["S"], rec["len"], rec["iter"], rec["items"], rec["slices"], rec["contains"]),
-                    dict(rec["_info"], check="cursor", field=field, S=rec["S"]))
+        if v["firstbad"]:
+            st = rec["steps"][v["firstbad"] - 1]
+            field = {"item": "items", "slice": "slices"}.get(st["op"], st["op"])
+            before = list(dict.fromkeys(x["op"] for x in rec["steps"][:v["firstbad"] - 1] if x["op"] != st["op"]))
+            when = "first-on-fresh-cursor" if not before else "after-" + "+".join(before)
+            sig = "cursor:%s:%s" % (field, when if field == "contains" else "any-order")
+            if sig not in seen:
+                seen.add(sig)
+                ctx.violation(sig, "find_jobs(%r) on %r, operations in the order %s: step %d %s%r -> %r does not describe the id set %s selected by find_jobs(%s) (all steps: %s)" % (
+                    info["filter"], info["corpus"], rec["script"], v["firstbad"], st["op"], tuple(st["a"]), st["r"], rec["S"], json.dumps(info.get("canonical")),
+                    [(x["op"], x["a"], x["r"]) for x in rec["steps"]][:40]),
+                    dict(info, check="cursor", script=rec["script"], S=rec["S"]))
     ctx.count(n=len(cursor_recs), traces=len(cursor_recs))
-    for i, rec in enumerate(cursor_recs):
-        ctx.count("cursor|%d|%d" % (len(rec["S"]), len(rec["iter"])), n=0)
-    ctx.cov["cursor_records"] = len(cursor_recs)
-    ctx.sample({"cursor_record": {k: v for k, v in cursor_recs[len(cursor_recs) // 2].items()}, "tlc_verdict": cv[len(cursor_recs) // 2]})
+    for rec in cursor_recs:
+        ctx.count("cursor|%d|%s" % (len(rec["S"]), ",".join(rec["script"])), n=0)
+    ctx.cov["cursor_records"] = {"scripts_judged_by_TLC": len(cursor_recs), "distinct_operation_orders": len(used_scripts),
+                                 "membership_first_on_fresh_cursor_compared": nfirst}
+    if len(used_scripts) < 24 or nfirst < 1000:
+        raise core.MachineryError("vacuous cursor part: %r" % ctx.cov["cursor_records"])
+    mid = next(r for r in cursor_recs if r["script"][0] == "contains" and len(r["S"]) >= 1)
+    ctx.sample({"cursor_script": mid["script"], "filter": mid["_info"]["filter"], "S": mid["S"], "steps": [(x["op"], x["a"], x["r"]) for x in mid["steps"]][:14], "tlc_verdict": cv[cursor_recs.index(mid)]})
 
     # ---- 3. groupby: TLC's requirement on the conformant model, then all generated cases ---------------------------
     gout, gcorp = os.path.join(ctx.work, "group.ndjson"), os.path.join(ctx.work, "gcorp.ndjson")
     genv = {"GROUP_OUT": gout, "GROUP_CORPORA": gcorp}
-    gc = consts("group", qflags, gflags, NGCORP=8 if quick else 60)
+    gc = consts("group", qflags, gflags, NGCORP=6 if quick else 60)
     if not all(gflags):
         cfgt = tlc.cfg(gc, init="GInit", next="GNext", invariants=["ImplMeetsReq"])
         r = tlc.run("query/GroupBy.tla", cfg_text=cfgt, workdir=ctx.work, workers=workers, seed=ctx.seed % 10**6, env=genv, coverage=False, allow_violation=True)
@@ -707,20 +790,17 @@ def run(ctx):
     sb = Q.Sandbox(ctx.mkdtemp("self"), [({"a": 1}, {"x": 1}), ({"a": 2}, {})])
     st["corrupted_spelling_detected"] = run_spelling(sb, sp) != sb.find_mask(Q.concrete(line["filter"]))
     # (b) corrupted cursor records and (c) corrupted groupby records must be rejected by TLC
-    good = [r for r, v in zip(cursor_recs, cv) if not r["err"] and all(v[k] for k in ("len", "iter", "again", "items", "slices", "contains")) and len(r["S"]) >= 2][:6]
+    good = [r for r, v in zip(cursor_recs, cv) if not r["err"] and all(v[k] for k in CURSOR_FIELDS) and len(r["S"]) >= 2][:6]
     bad = []
     for i, r0 in enumerate(good):
         c = json.loads(json.dumps({k: v for k, v in r0.items() if k != "_info"}))
         c["_info"] = {}
-        if i % 3 == 0:
-            c["len"] += 1
-        elif i % 3 == 1:
-            c["contains"][0][1] = not c["contains"][0][1]
-        else:
-            c["items"][0][1] = c["iter"][-1] if c["items"][0][1] != c["iter"][-1] else 0
+        op = ("len", "contains", "item")[i % 3]
+        stp = next(x for x in c["steps"] if x["op"] == op and (op != "item" or x["r"][0] != 0))
+        stp["r"] = [stp["r"][0] + 1] if op == "len" else [1 - stp["r"][0]] if op == "contains" else [0]
         bad.append(c)
     bv = judge_cursors(ctx, bad, qflags, gflags, "cursor-selftest")
-    st["corrupted_cursor_records_rejected_by_TLC"] = "%d/%d" % (sum(1 for v in bv if not all(v[k] for k in ("len", "iter", "again", "items", "slices", "contains"))), len(bad))
+    st["corrupted_cursor_records_rejected_by_TLC"] = "%d/%d" % (sum(1 for v in bv if not all(v[k] for k in CURSOR_FIELDS)), len(bad))
     goodg = [r for r, v in zip(allrecs, gv) if v["applicable"] and v["explain"] == "ok" and len(r["groups"]) >= 2][:6]
     badg = []
     for i, r0 in enumerate(goodg):
@@ -762,11 +842,14 @@ def replay(ctx, data):
         print("%s -> %s ; canonical find_jobs(%s) -> %s" % (Q.spelling_text(sp), Q.mask_to_list(got), json.dumps(data["canonical"]), Q.mask_to_list(base)))
         return 0 if got == base else 1
     if check == "cursor":
-        rec = observe_cursor(sb, data["filter"], sb.find_mask(data["filter"]), random.Random(0), {})
-        print({k: v for k, v in rec.items() if k != "_info"})
+        base = sb.find_mask(data["canonical"]) if data.get("canonical") is not None else sb.find_mask(data["filter"])
+        rec = observe_cursor(sb, data["filter"], base, data["script"], random.Random(0), {})
+        print("S =", rec["S"], "script", rec["script"], rec["err"])
+        for x in rec["steps"]:
+            print("  ", x["op"], x["a"], "->", x["r"])
         v = judge_cursors(ctx, [rec], c06.probe_flags(ctx), probe_flags(ctx), "replay")[0]
         print("TLC verdict:", v)
-        return 0 if all(v[k] for k in ("len", "iter", "again", "items", "slices", "contains")) else 1
+        return 0 if not rec["err"] and all(v[k] for k in CURSOR_FIELDS) else 1
     if check == "groupby":
         d = data["default"] if data["has_default"] else Q.ABS
         real = run_groupby(sb, data["filter"], data["key"], d)
